@@ -262,6 +262,7 @@ def run_mismatch_shards(tag, prelude, case_terms, eval_fn, shard=250, timeout=90
     run_mismatch_shards.evaluated = 0
     pending = list(enumerate(names))
     running = []
+    retried = set()
 
     def launch(k, name):
         cmd = (f"ulimit -s unlimited 2>/dev/null; timeout {timeout} coqc -Q {COQ}/theories Basyx "
@@ -275,6 +276,12 @@ def run_mismatch_shards(tag, prelude, case_terms, eval_fn, shard=250, timeout=90
         k, name, p = running.pop(0)
         out, _ = p.communicate()
         m = re.search(r"@@RESULT\s*=\s*\[(.*?)\]\s*:\s*list nat", out, re.S)
+        if p.returncode in (137, -9, 143, -15, 124) and k not in retried:
+            # killed from outside (out of memory / time limit on an overloaded machine): evaluate this shard once more, alone at
+            # the end; a second kill is reported like any other failure
+            retried.add(k)
+            pending.append((k, name))
+            continue
         if p.returncode != 0 or not m:
             errors.append(f"shard {k}: rc={p.returncode}: {out[-1500:]}")
         else:
